@@ -398,3 +398,117 @@ def field_slice_rule(chk, cid, prog, cfgname):
         from ..run import AnalysisBroken
         raise AnalysisBroken('field_slice_rule: %d buffer accesses, floor 64' % n)
     return n
+
+
+def terminator_rule(chk, cid, prog, cfgname):
+    """A header field is read with fscanf("%Nc", buf), which does not terminate the string, and then converted with atoi / atof / sscanf(buf, ...).
+    The conversion must be dominated by a store `buf[N] = 0` (the readers write it once and rely on it for the following fields of the same width):
+    without it the conversion runs on into whatever the buffer held before (e.g. the title line)."""
+    chk.clause(cid, 'fixed-width header fields are terminated before they are converted')
+    n = 0
+    for u in prog.units:
+        if not READER_UNITS_PAT.search(u.rel):
+            continue
+        for f in u.funcs:
+            locs = {vid: v for vid, v in f.locals.items() if array_size(v.t) is not None and 'char' in (v.t or '')}
+            if not locs:
+                continue
+            cfg = prog.cfg(f)
+            dom = cfg.dominators()
+            node_of = {}
+            for cn in cfg.nodes:
+                if cn.ast is not None and cn.kind in ('stmt', 'cond', 'return', 'switch'):
+                    for x in cn.ast.walk():
+                        node_of.setdefault(id(x), cn.id)
+            reads = []      # (node, buf id, width, call)
+            terms = []      # (node, buf id, index)
+            uses = []       # (node, buf id, call)
+            for x in f.body.walk():
+                if x.k == 'Call' and callee_name(x) == 'fscanf' and len(x.c) > 3 and strip(x.c[2]).k == 'Str':
+                    m = re.fullmatch(r'%(\d+)c', strip(x.c[2]).a['value'].strip('"'))
+                    b = strip(x.c[3])
+                    if m and b.k == 'Ref' and b.a.get('id') in locs:
+                        reads.append((node_of.get(id(x)), b.a['id'], int(m.group(1)), x))
+                if x.k == 'Assign' and x.a['op'] == '=' and strip(x.c[0]).k == 'Index' and const_value(x.c[1]) == 0:
+                    b = strip(strip(x.c[0]).c[0])
+                    if b.k == 'Ref' and b.a.get('id') in locs and const_value(strip(x.c[0]).c[1]) is not None:
+                        terms.append((node_of.get(id(x)), b.a['id'], const_value(strip(x.c[0]).c[1])))
+                if x.k == 'Call' and callee_name(x) in ('atoi', 'atof', 'atol', 'strtol', 'strtod', 'sscanf') and len(x.c) > 1:
+                    b = strip(x.c[1])
+                    if b.k == 'Ref' and b.a.get('id') in locs:
+                        uses.append((node_of.get(id(x)), b.a['id'], x))
+            # a terminator inside a counting loop that runs at least once (for (i = 0; i < 5; i++) { ...; buf[14] = 0; ... }) holds after the loop:
+            # it is represented by the loop's condition node
+            for lp in f.body.walk():
+                if lp.k != 'For':
+                    continue
+                init, cond = strip(lp.c[0]), strip(lp.c[1])
+                if init.k == 'Assign' and const_value(init.c[1]) is not None and cond.k == 'Binary' and cond.a['op'] in ('<', '<=') \
+                        and const_value(cond.c[1]) is not None and const_value(init.c[1]) < const_value(cond.c[1]) + (1 if cond.a['op'] == '<=' else 0):
+                    body = lp.c[3]
+                    stmts = body.c if body.k == 'Block' else [body]
+                    for st in stmts:
+                        s0 = strip(st)
+                        if s0.k == 'Assign' and s0.a['op'] == '=' and strip(s0.c[0]).k == 'Index' and const_value(s0.c[1]) == 0:
+                            b = strip(strip(s0.c[0]).c[0])
+                            if b.k == 'Ref' and b.a.get('id') in locs and const_value(strip(s0.c[0]).c[1]) is not None:
+                                hn = None
+                                for y in lp.c[1].walk():
+                                    if id(y) in node_of:
+                                        hn = node_of[id(y)]
+                                        break
+                                terms.append((hn, b.a['id'], const_value(strip(s0.c[0]).c[1])))
+            for (un, bid, call) in uses:
+                # the field width: the %Nc read into this buffer that is closest before the use (in source order, same function)
+                prev = [r for r in reads if r[1] == bid and r[3].line <= call.line]
+                if not prev:
+                    continue
+                w = max(prev, key=lambda r: r[3].line)[2]
+                n += 1
+                chk.saw(unit=u.rel, func=u.rel + ':' + f.name)
+                inst = '%s:%s:terminated:%s@%d' % (u.rel, f.name, locs[bid].a.get('name'), n)
+                ok = any(t[1] == bid and t[2] == w and t[0] is not None and un is not None and t[0] in dom.get(un, set()) for t in terms)
+                if ok:
+                    chk.ok(cid, inst, sample='%s[%d] = 0 dominates %s' % (locs[bid].a.get('name'), w, pretty(call)[:40]))
+                else:
+                    chk.violate(cid, inst, loc(f, call), f.name,
+                                '`%s` converts a %d-character field read with %%%dc, but no store `%s[%d] = 0` dominates it: the conversion reads on into stale '
+                                'buffer contents' % (pretty(call)[:40], w, w, locs[bid].a.get('name'), w), cfgname=cfgname)
+    return n
+
+
+def scatter_alignment_rule(chk, cid, prog, cfgname):
+    """Triplets (row[], col[], val[]) are scattered into column storage (asub[], a[]): the row index and the value of one entry must be taken from the
+    same triplet and put into the same slot - in every block that stores into both arrays, `asub[K] = row[T]` and `a[K'] = val[T']` need K = K', T = T'."""
+    chk.clause(cid, 'index and value of an entry are moved together')
+    n = 0
+    pairs = (('asub', 'a'), ('row', 'val'))
+    for u in prog.units:
+        if not READER_UNITS_PAT.search(u.rel):
+            continue
+        for f in u.funcs:
+            for blk in f.body.walk():
+                if blk.k != 'Block':
+                    continue
+                idx, val = [], []
+                for st in blk.c:
+                    s0 = strip(st)
+                    if s0.k == 'Assign' and s0.a['op'] == '=' and strip(s0.c[0]).k == 'Index' and strip(s0.c[1]).k == 'Index':
+                        d, s = strip(s0.c[0]), strip(s0.c[1])
+                        dn, sn = strip(d.c[0]).a.get('name'), strip(s.c[0]).a.get('name')
+                        if dn == 'asub' and sn == 'row':
+                            idx.append((canon(d.c[1], ids=False), canon(s.c[1], ids=False), s0))
+                        if dn == 'a' and sn == 'val':
+                            val.append((canon(d.c[1], ids=False), canon(s.c[1], ids=False), s0))
+                if not idx or not val:
+                    continue
+                n += 1
+                chk.saw(unit=u.rel, func=u.rel + ':' + f.name)
+                inst = '%s:%s:entry-moved-together@%d' % (u.rel, f.name, n)
+                if {(a, b) for (a, b, _) in idx} == {(a, b) for (a, b, _) in val}:
+                    chk.ok(cid, inst, sample='%s / %s' % (pretty(idx[0][2]), pretty(val[0][2])))
+                else:
+                    chk.violate(cid, inst, loc(f, val[0][2]), f.name,
+                                '`%s` and `%s` do not move the same triplet into the same slot: the pattern stays right but values end up at other positions'
+                                % (pretty(idx[0][2]), pretty(val[0][2])), cfgname=cfgname)
+    return n
